@@ -61,3 +61,8 @@ M("fields-result-lacks-nit", "main.py", "        nit=istate.nit,\n        status
 
 M("sib-early-exit-hands-on-checkpoint-operator", "main.py", "                hess_inv=LbfgsInvHessProduct(\n                    checkpoint.hess_inv.sk[-maxcor:], checkpoint.hess_inv.yk[-maxcor:]\n                ),\n",
   "                hess_inv=checkpoint.hess_inv,\n", ["SIB"], note="seeded change C18-b: more than maxcor pairs handed on")
+
+# ---- RESTARTX (round 4: "accept a start point that went through a file")
+M("restartx-allclose", "main.py", "        np.testing.assert_equal(x, checkpoint.x)\n", "        np.testing.assert_allclose(x, checkpoint.x, rtol=1e-10, atol=0.0)\n", ["RESTARTX"], canary=True)
+M("restartx-no-check", "main.py", "        np.testing.assert_equal(x, checkpoint.x)\n", "        pass\n", ["RESTARTX"])
+Q("restartx-array-equal", "main.py", "        np.testing.assert_equal(x, checkpoint.x)\n", "        np.testing.assert_array_equal(x, checkpoint.x)\n", ["RESTARTX"])
